@@ -421,7 +421,8 @@ theorem rate_rejects_malformed (r : Rate) (v : Bytes) : (rateSet r v).out = .ok 
           · exact absurd h hn
           · rw [hd]
 
-/-- **Accepted ⇒ exactly `(N, D)`**: whatever `Set` accepts other than `infinity` has the form
+/-- **Accepted ⇒ exactly `(N, D)`**: whatever `Set` accepts other than the word `infinity` (whose
+meaning is `rate_infinity_unlimited_and_guarded`) has the form
 `N` or `N/D`, and the stored rate is `N` per `D` (`Per` untouched when `N = 0`). -/
 theorem rate_accepted_meaning (r r' : Rate) (v : Bytes) (h : rateSet r v = ⟨r', .ok ()⟩) (hinf : v ≠ infinityWord) :
     ∃ nb db n, RateSplit v nb db ∧ IntLit nb n ∧ r'.freq = n ∧
@@ -483,43 +484,32 @@ theorem rate_zero_literal (r : Rate) :
 theorem guard_iff (mw : Nat) (r : Rate) : attackGuard mw r = true ↔ (mw = defaultMaxWorkers ∧ r.freq = 0) := by
   simp [attackGuard]
 
-/-
-Clause "the value `infinity` means an unlimited rate and demands -max-workers" at full strength:
+/-- **`-rate=infinity` means an unlimited rate and demands `-max-workers`** — for every rate the
+flag held before (in particular the attack command's default 50/1s): `Set` succeeds and stores
+`Freq = 0` leaving `Per` alone; the pacer treats that as infinite; the guard of `attack` fires
+exactly when `-max-workers` still has its default. Same statement as for `-rate=0`
+(`rate_zero_unlimited_and_guarded`). -/
+theorem rate_infinity_unlimited_and_guarded (r : Rate) :
+    rateSet r infinityWord = ⟨⟨0, r.per⟩, .ok ()⟩ ∧ unlimited (rateSet r infinityWord).st = true ∧
+      ∀ mw : Nat, attackGuard mw (rateSet r infinityWord).st = true ↔ mw = defaultMaxWorkers := by
+  have h : rateSet r infinityWord = ⟨⟨0, r.per⟩, .ok ()⟩ := by simp [rateSet]
+  refine ⟨h, by rw [h]; simp [unlimited], ?_⟩
+  intro mw; rw [h]; simp [attackGuard]
 
-    ∀ r, let r' := (rateSet r infinityWord).st;
-         unlimited r' = true ∧ attackGuard defaultMaxWorkers r' = true
+/-- `0` and `infinity` leave the flag in the same state -/
+theorem rate_infinity_same_as_zero (r : Rate) : rateSet r infinityWord = rateSet r [48] := by
+  rw [(rate_infinity_unlimited_and_guarded r).1, (rate_zero_literal r).1]
 
-It is FALSE for the unchanged code (DESIGN §8 defect 13): `Set("infinity")` returns nil without
-touching the rate, so on the attack command's flag (default 50/1s) the rate stays 50 per second
-and the guard does not fire.
--/
-
-/-- **Counterexample (defect 13)**: on the attack command's own default, `-rate=infinity` is
-accepted, leaves 50/1s in place, the pacer is limited and the guard does not demand
-`-max-workers`. -/
-theorem rate_infinity_unlimited_and_guarded_counterexample :
-    rateSet defaultRate infinityWord = ⟨⟨50, 1000000000⟩, .ok ()⟩ ∧
-    unlimited (rateSet defaultRate infinityWord).st = false ∧
-    attackGuard defaultMaxWorkers (rateSet defaultRate infinityWord).st = false := by decide
-
-/-- What does hold for `infinity`: it is accepted and leaves the rate exactly as it was — so it
-is unlimited-and-guarded if and only if the flag already held a zero frequency (which the
-attack command's default never does). -/
-theorem rate_infinity_unlimited_and_guarded_partial (r : Rate) :
-    rateSet r infinityWord = ⟨r, .ok ()⟩ ∧
-    (attackGuard defaultMaxWorkers (rateSet r infinityWord).st = true ↔ r.freq = 0) ∧
-    (r.freq = 0 → unlimited (rateSet r infinityWord).st = true) := by
-  have h : rateSet r infinityWord = ⟨r, .ok ()⟩ := by simp [rateSet]
-  refine ⟨h, ?_, ?_⟩
-  · rw [h]; simp [attackGuard, defaultMaxWorkers]
-  · intro hf; rw [h]; simp [unlimited, hf]
-
-/-- The default the flag is registered with is the extracted literal of `attackCmd`, its
-frequency is not zero: `infinity` on the command line can never trigger the guard. -/
-theorem rate_infinity_never_guarded_on_default (mw : Nat) :
-    attackGuard mw (rateSet defaultRate infinityWord).st = false := by
-  simp [rateSet, attackGuard, defaultRate]
-
+/-- **Defect 13 as it was before the repair** (commit 2df3294 in /repo): with the old `Set`
+(`rateSetOld`: `"infinity"` returned nil without touching the rate) the attack command's default
+50/1s stayed in place, the pacer was limited and the guard never demanded `-max-workers`. The
+regenerated fact `facts_rate_infinity_branch` pins the repaired branch (`f.Freq = 0; return nil`). -/
+theorem rate_infinity_old_counterexample :
+    rateSetOld defaultRate infinityWord = ⟨⟨50, 1000000000⟩, .ok ()⟩ ∧
+    unlimited (rateSetOld defaultRate infinityWord).st = false ∧
+    ∀ mw : Nat, attackGuard mw (rateSetOld defaultRate infinityWord).st = false := by
+  refine ⟨by decide, by decide, ?_⟩
+  intro mw; simp [rateSetOld, attackGuard, defaultRate]
 
 /-! ### printed form -/
 
@@ -556,19 +546,9 @@ theorem aux_intlit_fmtNat (n : Nat) (h : (n : Int) ≤ maxInt64) : IntLit (Durat
   · intro c hc; simp [Duration.fmtNat] at hc; exact h1 c hc
   · simp only [decVal, Duration.fmtNat, aux_decFrom_reverse, h3]
 
-/-
-Clause "a rate's printed form parses back to the same rate" at full strength:
-
-    ∀ r, 0 < r.freq → 0 < r.per → (in int64 range) → ∀ r0, rateSet r0 (rateString r) = ⟨r, .ok ()⟩
-
-It needs `Duration.parse (Duration.toString d) = .ok d` for every `0 < d ≤ MaxInt64`, a
-statement about the kit's model of `time.ParseDuration` / `Duration.String` (including the
-float64 arithmetic of the fraction).
--/
-
-/-- **A rate's printed form parses back to the same rate**, for every positive frequency and
-every period whose own printed form parses back (hypothesis `hdur`; see
-`rate_string_roundtrip` for the periods for which this is proved). -/
+/-- A rate's printed form parses back to the same rate, for every positive frequency and
+every period whose own printed form parses back (hypothesis `hdur`, discharged for all
+positive periods in `rate_string_roundtrip`). -/
 theorem rate_string_roundtrip_partial (r0 r : Rate) (hf : 0 < r.freq) (hfm : r.freq ≤ maxInt64)
     (hdur : Duration.parse (Duration.toString r.per) = .ok r.per) :
     rateSet r0 (rateString r) = ⟨r, .ok ()⟩ := by
@@ -580,6 +560,15 @@ theorem rate_string_roundtrip_partial (r0 r : Rate) (hf : 0 < r.freq) (hfm : r.f
   have := rate_parse r0 (Duration.fmtNat r.freq.natAbs) (Duration.toString r.per) r.freq r.per hl (by omega) hdur
   unfold rateString
   rw [hfmt, this]
+
+/-- **A rate's printed form parses back to the same rate**: `Set (String r) = r` for every rate
+with positive frequency and positive period (both `int64`), whatever the flag held before.
+Rests on `ParseDuration (d.String()) = d` for all positive `d`, proved over the kit's model of
+the two functions including the float64 arithmetic of the fraction
+(`Vegeta.Proofs.DurationRoundTrip.parse_toString`). -/
+theorem rate_string_roundtrip (r0 r : Rate) (hf : 0 < r.freq) (hfm : r.freq ≤ maxInt64)
+    (hp : 0 < r.per) (hpm : r.per ≤ maxInt64) : rateSet r0 (rateString r) = ⟨r, .ok ()⟩ :=
+  rate_string_roundtrip_partial r0 r hf hfm (Vegeta.Proofs.DurationRoundTrip.parse_toString r.per hp hpm)
 
 example : Duration.parse (Duration.toString 1500000000) = .ok 1500000000 := by decide
 example : rateSet ⟨0, 0⟩ (rateString ⟨50, 1500000000⟩) = ⟨⟨50, 1500000000⟩, .ok ()⟩ := by decide
@@ -1393,6 +1382,23 @@ theorem cmdline_rate_zero_guarded (args : List FlagArg) (o' : Opts) (h : parseAr
   rw [h1, hr]
   exact hlast pre _
 
+/-- the same for `-rate=infinity` as the last `-rate` flag -/
+theorem cmdline_rate_infinity_guarded (args : List FlagArg) (o' : Opts) (h : parseArgs defaultOpts args = .ok o')
+    (hmw : maxWorkersVals args = []) (pre : List Bytes) (hr : rateVals args = pre ++ [infinityWord]) :
+    attackGuard o'.maxWorkers o'.rate = true := by
+  obtain ⟨h1, _, _, h4⟩ := cmdline_flags_independent args defaultOpts o' h
+  rw [hmw] at h4
+  simp [defaultOpts] at h4
+  have hlast : ∀ (vs : List Bytes) (r : Rate), ((setAll rateSet r (vs ++ [infinityWord])).2).freq = 0 := by
+    intro vs
+    induction vs with
+    | nil => intro r; simp [setAll, (rate_infinity_unlimited_and_guarded r).1]
+    | cons v vs ih => intro r; simp only [List.cons_append, setAll]; exact ih _
+  rw [guard_iff]
+  refine ⟨h4, ?_⟩
+  rw [h1, hr]
+  exact hlast pre _
+
 /-! ### facts regenerated from the source -/
 
 theorem facts_default_rate : Vegeta.Extracted.c19DefaultRateFound = true ∧
@@ -1419,8 +1425,13 @@ theorem facts_flag_table :
        (ofAscii "connect-to", ofAscii "connectToFlag", ofAscii "connectTo"),
        (ofAscii "resolvers", ofAscii "csl", ofAscii "resolvers")] := by decide
 
+/-- the only special word of `rateFlag.Set` is `infinity`, and its branch is exactly
+`f.Freq = 0; return nil` — the repair of defect 13; reverting it breaks this obligation -/
+theorem facts_rate_infinity_branch : Vegeta.Extracted.c19RateSpecialWords = [infinityWord] ∧
+    Vegeta.Extracted.c19RateSpecialWordBranches = [[ofAscii "f.Freq = 0", ofAscii "return nil"]] := by decide
+
 /-- the literals of `rateFlag.Set` are the model's -/
-theorem facts_rate_literals : Vegeta.Extracted.c19RateNilWords = [infinityWord] ∧
+theorem facts_rate_literals : Vegeta.Extracted.c19RateSpecialWords = [infinityWord] ∧
     Vegeta.Extracted.c19RateBareUnits = bareUnits ∧ Vegeta.Extracted.c19RateDefaultPer = [49, 115] ∧
     Vegeta.Extracted.c19RateSplit = ofAscii "/|2" := by decide
 
